@@ -38,7 +38,7 @@ pub static DEF: CheckDef = CheckDef {
         ("multi:io-error", 0.005),
         ("other-schema-warning", 0.01),
     ],
-    extra: None,
+    extra: Some(extra),
     extra_coverage: Some(extra_coverage),
 };
 
@@ -48,11 +48,36 @@ fn plan(t: Tier) -> Vec<ClassPlan> {
         Tier::Thorough => 30,
     };
     vec![
-        ClassPlan { class: "soup", cases: 8_000 * k, min_len: 0, max_len: 300 },
-        ClassPlan { class: "mutated", cases: 8_000 * k, min_len: 2, max_len: 120 },
-        ClassPlan { class: "advdoc", cases: 8_000 * k, min_len: 8, max_len: 900 },
-        ClassPlan { class: "multi", cases: 4_000 * k, min_len: 8, max_len: 1200 },
+        ClassPlan { class: "soup", cases: 12_000 * k, min_len: 0, max_len: 300 },
+        ClassPlan { class: "mutated", cases: 12_000 * k, min_len: 2, max_len: 120 },
+        ClassPlan { class: "advdoc", cases: 12_000 * k, min_len: 8, max_len: 900 },
+        ClassPlan { class: "multi", cases: 6_000 * k, min_len: 8, max_len: 1200 },
     ]
+}
+
+/// Systematic part (worker 0): every repository file unmodified, and every file under every
+/// mutation operator with a few pseudo-random operand choices, so that "mutations of every schema
+/// file" does not depend on the tape picking each file.
+fn extra(ctx: &mut vcommon::Ctx) {
+    let n = repo::files().len();
+    let reps = match ctx.tier {
+        Tier::Quick => 2,
+        Tier::Thorough => 12,
+    };
+    for i in 0..n {
+        let idx = (i as u16).to_le_bytes();
+        ctx.eval_case("repo-file", &idx);
+        for op in 0..MUTATION_OPS {
+            for rep in 0..reps {
+                let mut rng = vcommon::SplitMix(mix(mix(ctx.seed, i as u64), (op * 64 + rep) as u64));
+                let mut tape = vec![idx[0], idx[1], ((op * 256 + MUTATION_OPS - 1) / MUTATION_OPS) as u8];
+                for _ in 0..24 {
+                    tape.push(rng.next() as u8);
+                }
+                ctx.eval_case("mutated-enum", &tape);
+            }
+        }
+    }
 }
 
 fn extra_coverage(_t: Tier) -> serde_json::Value {
@@ -293,10 +318,12 @@ fn random_insert(t: &mut Tape) -> String {
     }
 }
 
+const MUTATION_OPS: usize = 12;
+
 fn mutate_once(src: &str, t: &mut Tape, all: &[repo::RepoFile]) -> String {
     let toks = lex(src);
     let join = |v: Vec<&str>| v.concat();
-    match t.below(12) {
+    match t.below(MUTATION_OPS) {
         // token level
         0 if !toks.is_empty() => {
             let i = t.below(toks.len());
@@ -434,6 +461,26 @@ fn mutate_once(src: &str, t: &mut Tape, all: &[repo::RepoFile]) -> String {
     }
 }
 
+/// Repository file by explicit index (tape: u16 index), unmodified (`mutate == false`) or under
+/// exactly one mutation whose operator is selected by the third tape byte.
+fn repo_case(tape: &[u8], mutate: bool) -> Input {
+    let files = repo::files();
+    let mut t = Tape::new(tape);
+    let idx = (t.u16() as usize).min(files.len() - 1);
+    let f = &files[idx];
+    let source = if mutate {
+        let mut op = t.clone();
+        let _ = op.u8();
+        let src = if f.text.len() > 6000 { window(&f.text, &mut op) } else { f.text.clone() };
+        // `t` still points at the operator byte
+        mutate_once(&src, &mut t, files)
+    } else {
+        f.text.clone()
+    };
+    let others = repo::siblings(idx).into_iter().map(|(name, s)| Other { name, source: Some(s) }).collect();
+    Input { name: f.stem.clone(), source, others }
+}
+
 fn mutated(t: &mut Tape) -> (usize, Input) {
     let files = repo::files();
     let idx = t.below(files.len());
@@ -523,9 +570,30 @@ fn input_of(class: &str, tape: &[u8]) -> Input {
             c18::generate(&mut t, Some(DocMode::Adversarial), clean).input
         }
         "multi" => multi(&mut t),
-        // raw source text (hand-written replays, corpus files)
-        _ => Input::single("main", String::from_utf8_lossy(tape).into_owned()),
+        "repo-file" => repo_case(tape, false),
+        "mutated-enum" => repo_case(tape, true),
+        // raw source text (hand-written replays, corpus files): the tape is the main schema's
+        // source; lines of the form `=== schema <name> ===` start a further resolvable schema
+        _ => raw_input(&String::from_utf8_lossy(tape)),
     }
+}
+
+fn raw_input(text: &str) -> Input {
+    let mut input = Input::single("main", String::new());
+    let mut cur: Option<usize> = None;
+    for l in text.split_inclusive('\n') {
+        let t = l.trim_end();
+        if let Some(name) = t.strip_prefix("=== schema ").and_then(|r| r.strip_suffix(" ===")) {
+            input.others.push(Other { name: name.to_string(), source: Some(String::new()) });
+            cur = Some(input.others.len() - 1);
+            continue;
+        }
+        match cur {
+            None => input.source.push_str(l),
+            Some(i) => input.others[i].source.as_mut().unwrap().push_str(l),
+        }
+    }
+    input
 }
 
 fn render(class: &str, tape: &[u8]) -> String {
@@ -564,7 +632,7 @@ fn run_front(input: &Input, pass: &str) -> Result<Run, Outcome> {
         Ok(p) => p,
         Err(p) => {
             return Err(Outcome::fail(
-                format!("panic:parse:{}", p.location()),
+                format!("panic:parse:{}", front::loc(&p)),
                 format!("Parser::parse panicked ({pass} run): {}", p.0),
             ))
         }
@@ -585,7 +653,7 @@ fn run_front(input: &Input, pass: &str) -> Result<Run, Outcome> {
                 }
                 Err(p) => {
                     return Err(Outcome::fail(
-                        format!("panic:render:{}", p.location()),
+                        format!("panic:render:{}", front::loc(&p)),
                         format!("Renderer::render ({name}) panicked ({pass} run): {}", p.0),
                     ))
                 }
@@ -674,7 +742,7 @@ fn seeded<R: Send + 'static>(seed: u64, f: impl FnOnce() -> Result<R, Outcome> +
         Ok(r) => r,
         Err(_) => {
             let p = vcommon::last_panic_any_thread();
-            Err(Outcome::fail(format!("harness-or-sut-panic:{}", p.location()), format!("uncaught panic on the case thread: {}", p.0)))
+            Err(Outcome::fail(format!("harness-or-sut-panic:{}", front::loc(&p)), format!("uncaught panic on the case thread: {}", p.0)))
         }
     }
 }
@@ -774,7 +842,7 @@ fn first_run(input: &Input, fp: u64) -> Result<First, Outcome> {
     let mut main_syntax_error = false;
     match fmt {
         Err(pn) => {
-            return Err(Outcome::fail(format!("panic:format:{}", pn.location()), format!("Formatter panicked: {}", pn.0)));
+            return Err(Outcome::fail(format!("panic:format:{}", front::loc(&pn)), format!("Formatter panicked: {}", pn.0)));
         }
         Ok(Ok(_text)) => classes.push("formatted"),
         Ok(Err(names)) => {
@@ -831,7 +899,7 @@ fn first_run(input: &Input, fp: u64) -> Result<First, Outcome> {
                 Ok(_) => {}
                 Err(pn) => {
                     return Err(Outcome::fail(
-                        format!("panic:codegen:{}", pn.location()),
+                        format!("panic:codegen:{}", front::loc(&pn)),
                         format!("Generator::rust panicked (client={} server={} introspection={} introspection_if={:?} krate={:?}): {}", o.client, o.server, o.introspection, ro.introspection_if, ro.krate, pn.0),
                     ));
                 }
